@@ -76,6 +76,19 @@ pub fn duration_from_dur(d: &Dur) -> TemporalResult<Duration> {
     duration_from_f64s(&d.to_f64s())
 }
 pub fn duration_fields(d: &Duration) -> [f64; 10] {
+    let f = duration_fields_raw(d);
+    if negzero_survey() && f.iter().any(|v| *v == 0.0 && v.is_sign_negative()) {
+        NEGZERO.fetch_add(1, std::sync::atomic::Ordering::Relaxed);
+    }
+    f
+}
+/// development aid (`VERIF_NEGZERO_SURVEY=1`): how many observed durations carry a -0.0 field
+pub static NEGZERO: std::sync::atomic::AtomicU64 = std::sync::atomic::AtomicU64::new(0);
+pub fn negzero_survey() -> bool {
+    static ON: std::sync::OnceLock<bool> = std::sync::OnceLock::new();
+    *ON.get_or_init(|| std::env::var("VERIF_NEGZERO_SURVEY").is_ok())
+}
+fn duration_fields_raw(d: &Duration) -> [f64; 10] {
     [
         d.years().as_inner(),
         d.months().as_inner(),
